@@ -37,8 +37,6 @@ func NewTemplate(opt *config.Config) (*Template, error) {
 func EvaluateString(inp string, data map[string]any) (string, error) {
 	defer verifGate("EvaluateString.exit")
 	verifGate("EvaluateString.writeMode")
-	usesTemplates = false
-
 	prog, errs := parseStr(inp)
 
 	if len(errs) != 0 {
@@ -65,8 +63,6 @@ func EvaluateString(inp string, data map[string]any) (string, error) {
 func EvaluateFile(absPath string, data map[string]any) (string, error) {
 	defer verifGate("EvaluateFile.exit")
 	verifGate("EvaluateFile.writeMode")
-	usesTemplates = false
-
 	content, err := fileContent(absPath)
 	if err != nil {
 		return "", fail.FromError(err, 0, absPath, "template").Error()
